@@ -384,6 +384,16 @@ func main() {
 			var d writeDesc
 			json.Unmarshal(in.Raw, &d)
 			run.Add(saveCase(d))
+		case "saveall":
+			var d writeDesc
+			json.Unmarshal(in.Raw, &d)
+			run.Add(saveAllCase(d))
+		case "load":
+			var d loadDesc
+			json.Unmarshal(in.Raw, &d)
+			if c, ok := loadCase(d); ok {
+				run.Add(c)
+			}
 		}
 	}
 	if run.Replay != "" {
@@ -403,7 +413,29 @@ func main() {
 			run.Add(c)
 		}
 	}
+	for _, d := range fixedLoads() {
+		if c, ok := loadCase(d); ok {
+			run.Add(c)
+		}
+	}
 	r := hx.NewRng(run.Seed)
+	// inputs larger than one scanner buffer (64 KiB): one written scene and one text per 256 cases
+	// (the written scene goes first, the text last: they are the two most expensive cases and so land in different shards)
+	rb := r.Fork()
+	for i := 0; i < 1+run.N/1024; i++ {
+		run.Add(writeCase(genBigWrite(rb, run)))
+	}
+	// the file level: Load of hand-written OBJ + MTL files (N/8), SaveAll -> Load (N/16)
+	for i := 0; i < run.N/8; i++ {
+		if c, ok := loadCase(genLoad(r, run)); ok {
+			run.Add(c)
+		} else {
+			run.Count("load:not-tokenisable")
+		}
+		if i%2 == 0 {
+			run.Add(saveAllCase(genSaveAll(r, run)))
+		}
+	}
 	for i := 0; i < run.N; i++ {
 		switch {
 		case i%16 == 15:
@@ -419,6 +451,11 @@ func main() {
 			} else {
 				run.Count("file:not-tokenisable")
 			}
+		}
+	}
+	for i := 0; i < 1+run.N/1024; i++ {
+		if c, ok := fileCase(fileDesc{Text: genBigFile(rb, run)}); ok {
+			run.Add(c)
 		}
 	}
 	run.Finish()
